@@ -314,8 +314,8 @@ func (r *rig) snapshot() quiet {
 
 // settle waits until nothing is queued, every pending transaction is with a worker, and nothing moved for a while.
 func (r *rig) settle() {
-	pause := 300 * time.Microsecond
-	need := 4
+	pause := 400 * time.Microsecond
+	need := 5
 	if r.slow {
 		pause, need = 5*time.Millisecond, 8
 	}
